@@ -63,7 +63,7 @@ class C20:
               'fault_eintr_write', 'actor_mkdir_race', 'target_preexisting_truncated', 'dir_mode_one_input_failed', 'dir_mode_nested_skipped_without_r',
               'listing_order_non_sorted', 'locale_cannot_encode', 'relative_path_via_virtual_cwd', 'roundtrip_checked', 'actor_unlink',
               'interrupt_delivered', 'load_equal_checked', 'dump_equal_checked', 'converter_equal_checked', 'bom_input', 'crlf_input',
-              'flipped_byte_input', 'rerun_after_fault_exact', 'edited_in_place_same_size']
+              'flipped_byte_input', 'rerun_after_fault_exact', 'edited_in_place_same_size', 'big_input_over_24k', 'output_is_the_input_file']
 
     # ================================================================ plan
     def gen_plan(self, seed, index, tier):
@@ -101,7 +101,7 @@ class C20:
             if stem_key in used:
                 continue        # two inputs with one stem in one directory would convert onto the same output file
             used.add(stem_key)
-            kind = seeds.weighted(rng, [('kern', 8), ('garbage', 0.7), ('with_error', 0.9), ('empty', 0.3)])
+            kind = seeds.weighted(rng, [('kern', 8), ('garbage', 0.7), ('with_error', 0.9), ('empty', 0.3), ('big', 0.5)])
             di = rng.randrange(ndocs)
             eol = seeds.weighted(rng, [('\n', 5), ('\r\n', 3), ('mixed', 1), ('\r', 0.7)])
             op = {'op': 'put', 'path': path, 'doc': di, 'kind': kind, 'eol': eol, 'final_newline': rng.random() < 0.75, 'bom': rng.random() < 0.06,
@@ -153,6 +153,12 @@ class C20:
                     ops.append({'op': 'put_ekern', 'path': src, 'doc': rng.randrange(ndocs), 'eol': rng.choice(['\n', '\n', '\r\n'])})
                 out = posixpath.join(WORK, rng.choice(['out', 'conv']), 'back' + str(len(ops)) + '.krn')
                 ops.append({'op': 'e2k', 'in': as_given(src), 'out': as_given(out), 'premkdir': True, 'prefill': rng.random() < 0.25})
+            elif kind == 'cli_single' and produced_ekern and rng.random() < 0.5:
+                src = rng.choice(produced_ekern)
+                r = rng.random()
+                out = None if r < 0.35 else src if r < 0.5 else posixpath.join(WORK, rng.choice(['out', 'conv']), 'clik' + str(len(ops)) + '.krn')
+                ops.append({'op': 'cli', 'mode': 'e2k', 'input': as_given(src), 'output': as_given(out) if out else None, 'recursive': False,
+                            'verbose': rng.choice([1, 0]), 'premkdir': True, 'prefill': False})
             elif kind == 'cli_single' and kern_inputs:
                 src = rng.choice(kern_inputs)
                 out = None
@@ -281,6 +287,13 @@ class C20:
                 text = 'this is not\ta kern file\nat all\tx\ty\n'
             else:
                 lines = d.lines()
+                if op['kind'] == 'big':
+                    # a file of several I/O blocks (> 3 x 8 KiB) whose padding is made of multi-byte characters, so that block
+                    # boundaries of any reader fall inside characters: reference records before the header and after the end
+                    pad = ['!!!OTL@@' + str(i) + ': ' + ('señor 歌 𝄞 größe ' * 6)[(i % 7):] for i in range(95)]
+                    cut = max(1, len(pad) * (op['path'].__len__() % 5 + 1) // 6)
+                    lines = pad[:cut] + lines + pad[cut:]
+                    bump(probes, 'big_input_over_24k')
                 if op['kind'] == 'with_error':
                     # damage one **kern data cell so that the importer reports an error
                     for ri, r in enumerate(d.rows):
@@ -649,7 +662,7 @@ class C20:
             ref = ref_fn(data)
             got = 'returned' if status == 'returned' else status
             if out == inp:
-                return
+                bump(probes, 'output_is_the_input_file')     # converting in place: the API result replaces the input
             self._judge_converter('cli-' + mode, ref, got, out, faulted, add_v, check_target, bump, probes)
             frame_check(before, {out}, 'cli-single', set())
             return
